@@ -47,6 +47,69 @@ theorem listby_one_row_per_key (keys : List Val) :
     obtain ⟨i, hi⟩ := List.exists_mem_of_ne_nil _ hn
     exact ⟨i, (mem_group_iff hg).1 hi⟩
 
+/-- **the number of groups = the number of distinct keys**, counted as the rows that are the first
+with their key -/
+theorem listby_count (keys : List Val) (hne : keys ≠ []) :
+    (listbyG keys).length =
+      ((List.range keys.length).filter fun i =>
+        (List.range i).all fun j => cmp (keyAt keys j) (keyAt keys i) != .eq).length := by
+  generalize hF : ((List.range keys.length).filter fun i =>
+        (List.range i).all fun j => cmp (keyAt keys j) (keyAt keys i) != .eq) = F
+  have hperm : F.Perm ((listbyG keys).flatMap fun g =>
+      F.filter fun i => cmp (keyAt keys i) g.1 == .eq) := by
+    apply perm_flatMap_filter (listbyG keys) (fun g i => cmp (keyAt keys i) g.1 == .eq)
+    intro a ha
+    have han : a < keys.length := by rw [← hF] at ha; exact List.mem_range.1 (List.mem_filter.1 ha).1
+    obtain ⟨g, hg, hag⟩ := mem_listbyG.2 han
+    exact sortedG_countP (listbyG_sorted keys) hg ((mem_group_iff hg).1 hag).2
+  have hone : ∀ g ∈ listbyG keys, (F.filter fun i => cmp (keyAt keys i) g.1 == .eq).length = 1 := by
+    intro g hg
+    have hfil : (F.filter fun i => cmp (keyAt keys i) g.1 == .eq) =
+        g.2.filter fun i => (List.range i).all fun j => cmp (keyAt keys j) (keyAt keys i) != .eq := by
+      rw [← hF, group_eq_filter hg, List.filter_filter, List.filter_filter]
+      apply List.filter_congr
+      intro i _
+      exact Bool.and_comm _ _
+    rw [hfil]
+    have hinc := listbyG_increasing keys g hg
+    have hmem : ∀ i, i ∈ g.2 ↔ i < keys.length ∧ cmp (keyAt keys i) g.1 = .eq := fun i => mem_group_iff hg
+    cases hg2 : g.2 with
+    | nil => exact absurd hg2 (listbyG_nonempty hne g hg)
+    | cons h rest =>
+      rw [hg2] at hinc hmem
+      have hp := List.pairwise_cons.1 hinc
+      have hh := (hmem h).1 (by simp)
+      have hfirst : ((List.range h).all fun j => cmp (keyAt keys j) (keyAt keys h) != .eq) = true := by
+        rw [List.all_eq_true]
+        intro j hj
+        have hjh : j < h := List.mem_range.1 hj
+        by_cases hc : cmp (keyAt keys j) (keyAt keys h) = .eq
+        · have : j ∈ h :: rest := (hmem j).2 ⟨by omega, cmp_eq_trans hc hh.2⟩
+          rcases List.mem_cons.1 this with rfl | hjr
+          · omega
+          · have := hp.1 j hjr; omega
+        · simpa using hc
+      have hrest : (rest.filter fun i =>
+          (List.range i).all fun j => cmp (keyAt keys j) (keyAt keys i) != .eq) = [] := by
+        rw [List.filter_eq_nil_iff]
+        intro i hi
+        have hlt := hp.1 i hi
+        have hi' := (hmem i).1 (by simp [hi])
+        have hc : cmp (keyAt keys h) (keyAt keys i) = .eq := cmp_eq_trans hh.2 (cmp_eq_symm hi'.2)
+        simp only [List.all_eq_true, List.mem_range, bne_iff_ne, ne_eq]
+        exact fun hall => hall h hlt hc
+      rw [List.filter_cons, hfirst, hrest]
+      rfl
+  rw [hperm.length_eq, List.length_flatMap]
+  have : (List.map (fun g => (List.filter (fun i => cmp (keyAt keys i) g.1 == .eq) F).length)
+      (listbyG keys)) = (listbyG keys).map fun _ => 1 :=
+    List.map_congr_left hone
+  rw [this]
+  clear this hone hperm
+  induction listbyG keys with
+  | nil => rfl
+  | cons a as ih => simp only [List.map_cons, List.sum_cons, List.length_cons, ← ih]; omega
+
 /-- **original row order inside a group**: the row ids of a group are exactly the rows whose key
 equals the group's key, listed in increasing (= original) order -/
 theorem listby_order (keys : List Val) (g : Grp) (hg : g ∈ listbyG keys) :
